@@ -20,8 +20,8 @@ def NID(k, nid="N1"): return dict(op="SetNid", k=k, nid=nid)
 def PREV(k, frm): return dict(op="SetPrev", k=k, **{"from": frm})
 def G(k, nsig, nid="none", order=("k1", "k2", "k3"), hasState=False, ssig="none", skip=False):
     return dict(op="GenCerts", k=k, nid=nid, order=list(order), nsig=nsig, hasState=hasState, ssig=ssig, skip=skip)
-def ROT(k, src, which, k2, e2, n2, nid="none", order=("k1", "k2", "k3"), ostate="none", lf=False):
-    return dict(op="Rotate", k=k, nid=nid, order=list(order), src=src, which=which, k2=k2, e2=e2, n2=n2, ostate=ostate, lf=lf)
+def ROT(k, src, which, k2, e2, n2, nid="none", order=("k1", "k2", "k3"), ostate="none", lf=False, iid=False):
+    return dict(op="Rotate", k=k, nid=nid, order=list(order), src=src, which=which, k2=k2, e2=e2, n2=n2, ostate=ostate, lf=lf, iid=iid)
 def SUB(api, mut, nb=-3, na=30, sknb=0, skna=0, k="k1", e="e1", n="n1", prime=False):
     return dict(op="Submit", api=api, mut=mut, nb=nb, na=na, sknb=sknb, skna=skna, k=k, e=e, n=n, prime=prime)
 
@@ -41,6 +41,9 @@ for sw in (False, True):
     beh("f10_replay_loadfault" + ("w" if sw else ""), ["C10"], [A("k1", "e1", "n1", "s1"), ROT("k1", "k1", "cur", "k2", "e2", "n2", lf=True), ROT("k1", "k1", "cur", "k2", "e2", "n2"),
                                                                 ROT("k1", "k1", "cur", "k2", "e2", "n2", lf=True), ROT("k1", "k1", "cur", "k2", "e2", "n2"), ROT("k2", "k2", "cur", "k3", "e1", "n1", lf=True),
                                                                 ROT("k2", "k2", "cur", "k3", "e1", "n1")], sw=sw)
+# a rotation payload whose inner bundle carries a foreign id, presented twice: the second use is a replay
+beh("f10_replay_inner_id", ["C10"], [A("k1", "e1", "n1", "s1"), ROT("k1", "k1", "cur", "k2", "e2", "n2", iid=True), ROT("k1", "k1", "cur", "k2", "e2", "n2", iid=True), ROT("k1", "k1", "cur", "k2", "e2", "n2"),
+                                      ROT("k2", "k2", "cur", "k3", "e1", "n1", iid=True), ROT("k2", "k2", "cur", "k3", "e1", "n1", iid=True)])
 def FR(t, ka, kb, e="e1", be="inmem"): return dict(op="FetchRace", t=t, ka=ka, kb=kb, e=e, be=be)
 # overlapping fetches presenting the same token: known finding KF-C06-1 on the in-memory back end; the file back end refuses the loser
 beh("kf_c06_race", ["C06", "C01"], [T("t1", "s1"), FR("t1", "k1", "k2"), F("k3", "e1", "t1"), T("t2"), FR("t2", "k3", "k1"), FR("t2", "k3", "k2")])
